@@ -50,6 +50,20 @@ def gen(args) -> list:
     forced += [(t, ptxt, c) for c in cults[-4:] for t, ptxt in (("LocalTime", "hh:mm tt"), ("LocalTime", "h:mm t"), ("LocalTime", "hh tt"), ("LocalTime", "h"),
                                                               ("LocalDateTime", "uuuu-MM-dd hh:mm tt"), ("LocalDateTime", "M/d/yyyy h t"))]
     todo = [(t, p, None) for t, p in todo] + forced + [(rnd.choice(TYPES[:4]), rnd.choice(["HH:mm", "d", "uuuu-MM-dd", "G", "t", "+HH:mm"]), c) for c in sweep]
+    # the end of every calendar with the hour 24 (valid only when a next day exists), and the day before it
+    extra_inputs: dict = {}
+    for cal in cals:
+        from pyoda_time import LocalDate as _LD
+
+        last = _LD._ctor(days_since_epoch=cal._max_days, calendar=cal)
+        prev = _LD._ctor(days_since_epoch=cal._max_days - 1, calendar=cal)
+        first = _LD._ctor(days_since_epoch=cal._min_days, calendar=cal)
+        for ptxt, mk in (("uuuu-MM-dd'T'HH:mm:ss c", lambda d, hh: f"{d.year:04d}-{d.month:02d}-{d.day:02d}T{hh} {d.calendar.id}"),
+                         ("uuuu-MM-dd HH:mm c", lambda d, hh: f"{d.year:04d}-{d.month:02d}-{d.day:02d} {hh[:5]} {d.calendar.id}")):
+            extra_inputs.setdefault(("LocalDateTime", ptxt), []).extend([mk(last, "24:00:00"), mk(prev, "24:00:00"), mk(first, "24:00:00"), mk(last, "23:59:59"), mk(last, "24:00:01")])
+    extra_inputs[("Instant", "uuuu-MM-dd'T'HH:mm:ss'Z'")] = ["9999-12-31T24:00:00Z", "9999-12-30T24:00:00Z", "-9998-01-01T24:00:00Z", "9999-12-31T23:59:59Z"]
+    extra_inputs[("LocalDateTime", "uuuu-MM-dd'T'HH:mm:ss")] = ["9999-12-31T24:00:00", "9999-12-30T24:00:00", "-9998-01-01T00:00:00", "9999-12-31T24:00:01"]
+    todo += [(t, ptxt, None) for (t, ptxt) in extra_inputs]
     for typ, ptext, forced_culture in todo:
         culture = forced_culture if forced_culture is not None else rnd.choice(cults)
         ev = {"op": "pattern", "type": typ, "pattern": cps(ptext), "culture": culture.name if culture is not None else "", "parses": []}
@@ -76,6 +90,14 @@ def gen(args) -> list:
             pat = None
         finally:
             signal.alarm(0)
+        if pat is not None and hasattr(pat, "with_template_value") and rnd.random() < 0.3:
+            # a pattern with another template value is a successfully created pattern too (fields the text does not give come from it)
+            try:
+                pat = pat.with_template_value(textgen.random_value(typ, rnd, cals))
+                ev["template_changed"] = True
+                ev.pop("tsep", None)            # (the reference parser speaks about the default template only)
+            except Exception:  # noqa: BLE001 - not every value is accepted as a template: keep the default one
+                pass
         if pat is not None:
             inputs = []
             for _ in range(3):
@@ -88,6 +110,7 @@ def gen(args) -> list:
                 for _ in range(3):
                     inputs.append(textgen.mutate(t, rnd))
             inputs += [textgen.mutate("", rnd), ""]
+            inputs += extra_inputs.get((typ, ptext), []) if forced_culture is None else []
             for text in inputs:
                 p = {"text": cps(text[:200]), "valid": False, "error_available": False, "whole": len(text) <= 200}
                 signal.alarm(10)
@@ -108,6 +131,13 @@ def gen(args) -> list:
                             ok = ok and type(e2) is type(r.exception)
                         try:
                             r.get_value_or_throw()
+                            ok = False
+                        except Exception:  # noqa: BLE001
+                            pass
+                        # ... and asking for the error changes nothing: it is still a failure, with the same kind of error
+                        ok = ok and (not r.success) and isinstance(r.exception, Exception)
+                        try:
+                            r.value
                             ok = False
                         except Exception:  # noqa: BLE001
                             pass
